@@ -245,8 +245,9 @@ fn ser_named_type(ty: &OwnedDataModelType, value: &Value, out: &mut Vec<u8>) -> 
             name: _,
             data: OwnedData::Tuple(tys),
         } => {
-            // Tuples with arity of 1 are not arrays, but instead just a single object
-            if tys.len() == 1 {
+            // Tuple structs with arity of 1 are not arrays, but instead just a single object.
+            // A plain 1-tuple or `[T; 1]` is still an array of one element, as serde_json renders it.
+            if tys.len() == 1 && !matches!(ty, OwnedDataModelType::Tuple(_)) {
                 return ser_named_type(&tys[0], value, out);
             }
 
